@@ -419,7 +419,9 @@ class ControlParser(ArgumentParser):
                 #       argument help text. For now, the argument help just
                 #       shows the type it will be converted to.
                 # https://github.com/daniil-berg/asyncio-taskpool/issues/3
-                self.add_function_arg(param, help=repr(param.annotation))
+                self.add_function_arg(
+                    param, help=_escape_percent(repr(param.annotation))
+                )
 
 
 def _escape_percent(text: str | None) -> str | None:
